@@ -452,4 +452,282 @@ example :
 example : (addBlock { exTracker with tip := ⟨⟨10, 9, 1, 0, true⟩, 0⟩ } exHeader
     { exProof [9] with verifyOk := false }).2 = .ok := by decide
 
+/-! ## 8. Histories: the remembered window is a linked chain, its length and the height are exact
+
+`add_block` does `headers.truncate(MAX_REORG_SIZE - 1); headers.push_front(tip)`, `remove_block` does
+`headers.pop_front()`.  Sections 1–6 speak about one request; here the bookkeeping is followed through arbitrary
+histories of add / remove / block-chunk requests (accepted and refused, compact and streamed), "at all heights
+relative to the retarget interval and reorg depth limit".  A history ends at the first `.panic` (the signer is gone). -/
+
+inductive TOp where
+  | add (h : Header) (p : Proof)
+  | remove (p : Proof) (v : Headers)
+  | chunk (d a : Nat)
+
+def tstep (t : Tracker) : TOp → Tracker × Out
+  | .add h p => addBlock t h p
+  | .remove p v => removeBlock t p v
+  | .chunk d a => blockChunk t d a
+
+/-- run a history; `none` = a request aborted the signer -/
+def trun : Tracker → List TOp → Option Tracker
+  | t, [] => some t
+  | t, op :: ops => match (tstep t op).2 with
+    | .panic => none
+    | _ => trun (tstep t op).1 ops
+
+/-- every entry's header names the next entry's header as its predecessor -/
+def LinkedList : List Headers → Prop
+  | a :: b :: rest => a.hdr.prev = b.hdr.hash ∧ LinkedList (b :: rest)
+  | _ => True
+
+/-- the tip followed by the remembered headers is a linked chain -/
+def Linked (t : Tracker) : Prop := LinkedList (t.tip :: t.headers)
+
+theorem LinkedList.tail {a : Headers} {l : List Headers} (h : LinkedList (a :: l)) : LinkedList l := by
+  cases l with
+  | nil => trivial
+  | cons b rest => exact h.2
+
+theorem LinkedList.take {a : Headers} {l : List Headers} (h : LinkedList (a :: l)) (k : Nat) :
+    LinkedList (a :: l.take k) := by
+  induction l generalizing a k with
+  | nil => simpa using h
+  | cons b rest ih =>
+    cases k with
+    | zero => trivial
+    | succ k => exact ⟨h.1, ih h.2 k⟩
+
+/-- an accepted `add_block` keeps the window a linked chain: the new tip links to the old one (checked), the old
+    tip is pushed in front of the truncated window -/
+theorem C13_linked_add (t : Tracker) (h : Header) (p : Proof) (hl : Linked t)
+    (hr : (addBlock t h p).2 = .ok) : Linked (addBlock t h p).1 := by
+  obtain ⟨h1, _, _, _, ht, _, hh⟩ := C13_advance_add t h p hr
+  unfold Linked
+  rw [ht, hh]
+  exact ⟨h1, hl.take _⟩
+
+/-- an accepted `remove_block` keeps it one: the supplied previous header is the remembered one (checked), or the
+    window is empty (deep reorg allowed) and the supplied header becomes a one-element chain -/
+theorem C13_linked_remove (t : Tracker) (p : Proof) (v : Headers) (hl : Linked t)
+    (hr : (removeBlock t p v).2 = .ok) : Linked (removeBlock t p v).1 := by
+  obtain ⟨_, _, _, _, hw, _, _, ht, _, hh⟩ := C13_advance_remove t p v hr
+  unfold Linked at hl ⊢
+  rw [ht, hh]
+  cases hs : t.headers with
+  | nil => trivial
+  | cons h0 rest =>
+    rw [hs] at hl
+    rw [hw h0 rest hs]
+    exact hl.tail
+
+/-- a block chunk touches neither tip nor window nor height -/
+theorem chunk_view (t : Tracker) (d a : Nat) :
+    (blockChunk t d a).1.tip = t.tip ∧ (blockChunk t d a).1.headers = t.headers ∧
+    (blockChunk t d a).1.height = t.height := by
+  unfold blockChunk
+  split
+  · exact ⟨rfl, rfl, rfl⟩
+  · split
+    · exact ⟨rfl, rfl, rfl⟩
+    · split <;> exact ⟨rfl, rfl, rfl⟩
+
+/-- every request that does not abort the signer preserves `Linked` -/
+theorem C13_linked_step (t : Tracker) (op : TOp) (hl : Linked t) (hp : (tstep t op).2 ≠ .panic) :
+    Linked (tstep t op).1 := by
+  cases op with
+  | add h p =>
+    cases hr : (addBlock t h p).2 with
+    | ok => exact C13_linked_add t h p hl hr
+    | panic => exact absurd hr hp
+    | err k =>
+      have hv := C13_atomic_add_view t h p k hr
+      simp only [Tracker.view, View.mk.injEq] at hv
+      unfold Linked; simp only [tstep]; rw [hv.1, hv.2.1]; exact hl
+  | remove p v =>
+    cases hr : (removeBlock t p v).2 with
+    | ok => exact C13_linked_remove t p v hl hr
+    | panic => exact absurd hr hp
+    | err k =>
+      have hv := C13_atomic_remove_view t p v k hr
+      simp only [Tracker.view, View.mk.injEq] at hv
+      unfold Linked; simp only [tstep]; rw [hv.1, hv.2.1]; exact hl
+  | chunk d a =>
+    obtain ⟨h1, h2, _⟩ := chunk_view t d a
+    unfold Linked; simp only [tstep]; rw [h1, h2]; exact hl
+
+/-- **C13, histories.** Along any history that does not abort the signer the tip and the remembered headers form a
+    linked chain (each header was accepted on top of the next one). -/
+theorem C13_linked_run (t t' : Tracker) (ops : List TOp) (hl : Linked t) (hr : trun t ops = some t') :
+    Linked t' := by
+  induction ops generalizing t with
+  | nil => simp only [trun, Option.some.injEq] at hr; subst hr; exact hl
+  | cons op ops ih =>
+    simp only [trun] at hr
+    cases ho : (tstep t op).2 with
+    | panic => rw [ho] at hr; cases hr
+    | ok => rw [ho] at hr; exact ih _ (C13_linked_step t op hl (by rw [ho]; simp)) hr
+    | err k => rw [ho] at hr; exact ih _ (C13_linked_step t op hl (by rw [ho]; simp)) hr
+
+/-- exact window length after an accepted `add_block`: one more, capped at `MAX_REORG_SIZE` -/
+theorem C13_window_add_exact (t : Tracker) (h : Header) (p : Proof) (hr : (addBlock t h p).2 = .ok) :
+    (addBlock t h p).1.headers.length = min (t.headers.length + 1) maxReorgSize ∧
+    (addBlock t h p).1.headers.head? = some t.tip := by
+  rw [(C13_advance_add t h p hr).2.2.2.2.2.2]
+  have := C13_gen_ok.1
+  refine ⟨?_, rfl⟩
+  simp only [List.length_cons, List.length_take, Nat.min_def]
+  split <;> split <;> omega
+
+/-- the window never exceeds `MAX_REORG_SIZE`, along any history -/
+theorem C13_window_step (t : Tracker) (op : TOp) (hw : t.headers.length ≤ maxReorgSize)
+    (hp : (tstep t op).2 ≠ .panic) : (tstep t op).1.headers.length ≤ maxReorgSize := by
+  cases op with
+  | add h p =>
+    cases hr : (addBlock t h p).2 with
+    | ok => exact C13_window_bounded t h p hr
+    | panic => exact absurd hr hp
+    | err k =>
+      have hv := C13_atomic_add_view t h p k hr
+      simp only [Tracker.view, View.mk.injEq] at hv
+      simp only [tstep]; rw [hv.1]; exact hw
+  | remove p v =>
+    cases hr : (removeBlock t p v).2 with
+    | ok => exact Nat.le_trans (C13_window_bounded_remove t p v hr) hw
+    | panic => exact absurd hr hp
+    | err k =>
+      have hv := C13_atomic_remove_view t p v k hr
+      simp only [Tracker.view, View.mk.injEq] at hv
+      simp only [tstep]; rw [hv.1]; exact hw
+  | chunk d a => simp only [tstep]; rw [(chunk_view t d a).2.1]; exact hw
+
+theorem C13_window_run (t t' : Tracker) (ops : List TOp) (hw : t.headers.length ≤ maxReorgSize)
+    (hr : trun t ops = some t') : t'.headers.length ≤ maxReorgSize := by
+  induction ops generalizing t with
+  | nil => simp only [trun, Option.some.injEq] at hr; subst hr; exact hw
+  | cons op ops ih =>
+    simp only [trun] at hr
+    cases ho : (tstep t op).2 with
+    | panic => rw [ho] at hr; cases hr
+    | ok => rw [ho] at hr; exact ih _ (C13_window_step t op hw (by rw [ho]; simp)) hr
+    | err k => rw [ho] at hr; exact ih _ (C13_window_step t op hw (by rw [ho]; simp)) hr
+
+/-- **Reorg depth limit.** With deep reorgs not allowed, a removal is answered `ReorgTooDeep` exactly when the
+    window is empty — whatever proof and previous header are supplied — and then nothing changes. -/
+theorem C13_reorg_too_deep (t : Tracker) (p : Proof) (v : Headers) (hd : t.allowDeep = false)
+    (hs : t.decoding = none) (he : t.headers = []) :
+    removeBlock t p v = (t, .err .reorgTooDeep) := by
+  unfold Tracker.removeBlock doRemoveBlock
+  simp only [he, hd, List.isEmpty_nil, Bool.not_false, Bool.and_self, if_true]
+  unfold abortIfStreamed
+  simp [hs]
+
+theorem abortIfStreamed_snd (t : Tracker) (r : Tracker × Out) : (abortIfStreamed t r).2 = r.2 := by
+  unfold abortIfStreamed
+  split
+  · split <;> rfl
+  · rfl
+
+theorem maybeFinish_err_kind {t t1 : Tracker} {p : Proof} {e : Nat} {k : ErrKind}
+    (hm : maybeFinish t p e = some (t1, some k)) : k = .decodeError := by
+  unfold maybeFinish at hm
+  split at hm
+  · cases hm
+  · cases hd : t.decoding with
+    | none => simp [hd] at hm
+    | some x =>
+      simp only [hd, Option.some.injEq, Prod.mk.injEq] at hm
+      obtain ⟨_, he⟩ := hm
+      by_cases hx : x ≠ e
+      · simp [hx] at he; exact he.symm
+      · simp [hx] at he
+
+/-- the checks after the window test answer with a decode, link, PoW, retarget or proof error, never `ReorgTooDeep` -/
+theorem removeCore_not_tooDeep (t : Tracker) (p : Proof) (v : Headers) :
+    (doRemoveBlock.removeCore t p v).2 ≠ .err .reorgTooDeep := by
+  intro h
+  unfold doRemoveBlock.removeCore at h
+  split at h
+  · cases h
+  · rename_i t1 e hm
+    rw [maybeFinish_err_kind hm] at h; cases h
+  · split at h
+    · cases h
+    · split at h
+      · rename_i e hv
+        unfold validateBlock at hv
+        split at hv
+        · rename_i e' hc
+          simp only [Option.some.injEq] at hv; subst hv
+          unfold headerCheck at hc
+          split at hc
+          · cases hc; cases h
+          · split at hc
+            · cases hc; cases h
+            · split at hc
+              · cases hc
+              · split at hc
+                · unfold validateRetarget at hc
+                  simp only at hc
+                  split at hc
+                  · cases hc; cases h
+                  · split at hc
+                    · cases hc; cases h
+                    · split at hc
+                      · cases hc; cases h
+                      · cases hc
+                · split at hc
+                  · cases hc; cases h
+                  · cases hc
+        · split at hv
+          · cases hv
+          · split at hv
+            · cases hv
+            · cases hv; cases h
+      · split at h
+        · cases h
+        · split at h <;> cases h
+
+/-- conversely a removal is never refused as too deep while a header is remembered -/
+theorem C13_not_too_deep (t : Tracker) (p : Proof) (v : Headers) (h0 : Headers) (rest : List Headers)
+    (he : t.headers = h0 :: rest) : (removeBlock t p v).2 ≠ .err .reorgTooDeep := by
+  unfold Tracker.removeBlock
+  rw [abortIfStreamed_snd]
+  unfold doRemoveBlock
+  simp only [he, List.isEmpty_cons, Bool.false_and, Bool.false_eq_true, if_false]
+  split
+  · simp
+  · split
+    · simp
+    · exact removeCore_not_tooDeep t p v
+
+/-- add then remove: the tip and the height are restored; the window is the old one less (at most) its oldest
+    entry, which `truncate(MAX_REORG_SIZE - 1)` dropped — the only trace of the excursion -/
+theorem C13_add_remove_roundtrip (t : Tracker) (h : Header) (p p' : Proof) (v : Headers)
+    (ha : (addBlock t h p).2 = .ok) (hr : (removeBlock (addBlock t h p).1 p' v).2 = .ok) :
+    (removeBlock (addBlock t h p).1 p' v).1.tip = t.tip ∧
+    (removeBlock (addBlock t h p).1 p' v).1.height = t.height ∧
+    (removeBlock (addBlock t h p).1 p' v).1.headers = t.headers.take (maxReorgSize - 1) := by
+  obtain ⟨_, _, _, _, _, hh, hw⟩ := C13_advance_add t h p ha
+  obtain ⟨_, _, _, _, hv, _, _, ht', hh', hw'⟩ := C13_advance_remove _ p' v hr
+  have hvt : v = t.tip := hv _ _ hw
+  refine ⟨by rw [ht', hvt], by rw [hh', hh]; omega, by rw [hw', hw]; rfl⟩
+
+/-- below the limit the window is restored exactly -/
+theorem C13_add_remove_roundtrip_exact (t : Tracker) (h : Header) (p p' : Proof) (v : Headers)
+    (hlen : t.headers.length < maxReorgSize)
+    (ha : (addBlock t h p).2 = .ok) (hr : (removeBlock (addBlock t h p).1 p' v).2 = .ok) :
+    (removeBlock (addBlock t h p).1 p' v).1.headers = t.headers := by
+  rw [(C13_add_remove_roundtrip t h p p' v ha hr).2.2]
+  exact List.take_of_length_le (by omega)
+
+/-- the history theorems are not vacuous: add, refused add (1 of 3 oracles), remove, on the example tracker -/
+example : Linked exTracker ∧
+    (trun exTracker [.add exHeader (exProof [1, 2]), .add ⟨12, 11, 1, 0, true⟩ (exProof [1]),
+                     .remove (exProof [2, 3]) exTracker.tip]).map (fun t => (t.tip, t.height, t.headers.length))
+      = some (exTracker.tip, 5, 1) := by
+  constructor
+  · exact ⟨by decide, trivial⟩
+  · decide
+
 end VlsModel.Props.C13
